@@ -608,6 +608,19 @@ func (h *H) SnapshotBytes() ([]byte, error) {
 	return sink.buf.Bytes(), nil
 }
 
+// SnapshotTake captures the state (fsm.FSM.Snapshot: the point of the log the snapshot stands for); PersistSnapshot
+// writes a captured snapshot out later - raft runs Persist concurrently with the entries applied after the capture.
+func (h *H) SnapshotTake() (raft.FSMSnapshot, error) { return h.FSM.Snapshot() }
+
+func PersistSnapshot(snap raft.FSMSnapshot) ([]byte, error) {
+	defer snap.Release()
+	sink := &memSink{}
+	if err := snap.Persist(sink); err != nil {
+		return nil, err
+	}
+	return sink.buf.Bytes(), nil
+}
+
 func (h *H) Restore(b []byte) error {
 	return h.FSM.Restore(io.NopCloser(bytes.NewReader(b)))
 }
